@@ -145,7 +145,7 @@ func propSpecs() map[string]*PropSpec {
 		RunFn: func(r *Runner) {
 			f := "^VX_C11_register_K[23]$"
 			if r.Tier == "thorough" {
-				f = "^VX_C11_"
+				f = "^VX_C11_register_"
 			}
 			r.modeB("derive", f, true, DefaultBounds)
 		}})
